@@ -21,6 +21,7 @@ thread_local! {
     static BUDGET: Cell<u32> = const { Cell::new(0) };
     static COUNT: Cell<u32> = const { Cell::new(0) };
     static TRAPS: Cell<u32> = const { Cell::new(0) };
+    static TRAP_LIMIT: Cell<u32> = const { Cell::new(0) };
 }
 
 static TEXT_LO: AtomicUsize = AtomicUsize::new(0);
@@ -37,8 +38,8 @@ pub static FIRED_BY_COUNT: AtomicU64 = AtomicU64::new(0);
 /// stepping given up because too many instructions outside the text were met (a long excursion into the C library)
 pub static EXPIRED: AtomicU64 = AtomicU64::new(0);
 
-/// Upper bound on traps per arming (counted or not): bounds the cost of an excursion into the C library or the
-/// unwinder.
+/// Upper bound on traps per arming (counted or not), on top of four times the requested count: bounds the cost of
+/// an excursion into the C library or the unwinder.
 const TRAP_CAP: u32 = 6000;
 
 /// The executable mapping(s) of this program's own file: [lowest start, highest end) of the lines of
@@ -105,7 +106,7 @@ extern "C" fn on_trap(_sig: libc::c_int, _info: *mut libc::siginfo_t, ctx: *mut 
                 return;
             }
         }
-        if traps >= TRAP_CAP {
+        if traps >= TRAP_LIMIT.with(|t| t.get()) {
             gregs[libc::REG_EFL as usize] &= !TF;
             ARMED.with(|a| a.set(false));
             TRAPS_TOTAL.fetch_add(traps as u64, Ordering::Relaxed);
@@ -149,6 +150,7 @@ pub fn armed() -> bool {
 #[inline(always)]
 pub fn arm(budget: u32) {
     BUDGET.with(|b| b.set(budget.max(1)));
+    TRAP_LIMIT.with(|t| t.set(budget.saturating_mul(4).saturating_add(TRAP_CAP)));
     COUNT.with(|c| c.set(0));
     TRAPS.with(|t| t.set(0));
     ARMED.with(|a| a.set(true));
